@@ -20,7 +20,7 @@ use ciphercore_base::inline::inline_ops::InlineConfig;
 use ciphercore_base::mpc::mpc_compiler::IOStatus;
 use serde_json::json;
 
-pub const HEADER: &str = "From Coq Require Import Ring.\nFrom CC Require Import Base.Prelude Base.Scalar Base.Ty Base.Shape Graph.Value Graph.IR Model.RingEval.";
+pub const HEADER: &str = "From Coq Require Import Ring.\nFrom CC Require Import Base.Prelude Base.Scalar Base.Ty Base.Shape Graph.Value Graph.IR Graph.Eval Model.RingEval Model.RingEvalInst.";
 
 /// the compiled graph's input values for an owner vector: Shared inputs are presented as shares
 pub fn present_inputs(input_types: &[Type], owners: &[IOStatus], plain: &[Value], rng: &mut Rng) -> Vec<Value> {
@@ -161,8 +161,8 @@ fn ring_obligation(id: usize, p: &Prog, c: &Compiled, owners: &[IOStatus], outs:
             }
         }
     }
-    let private = owners.iter().any(|o| *o != IOStatus::Public);
-    let shared_out = outs.is_empty() && private;
+    // with no output parties the result is always left shared (a public result is re-shared by party 0)
+    let shared_out = outs.is_empty();
     let ev = "reval R r0 radd rmul rsub atom catom one";
     format!(
         "Section Case{id}.\n  Variable R : Type.\n  Variables (r0 r1 : R) (radd rmul rsub : R -> R -> R) (ropp : R -> R).\n  Hypothesis Rth : ring_theory r0 r1 radd rmul rsub ropp eq.\n  Add Ring Rr{id} : Rth.\n  Variables (atom : Z -> R) (catom : value -> R) (one : R).\n  Goal forall ({vars} : R), exists v,\n    rout R radd ({ev} {cn} [] [{ci}]) {co} {sh} = Some v /\\\n    rout R radd ({ev} {sn} [] [{si}]) {so} false = Some v.\n  Proof. intros. eexists. split; [cbv; reflexivity | cbv; f_equal; ring]. Qed.\nEnd Case{id}.\n",
@@ -170,6 +170,24 @@ fn ring_obligation(id: usize, p: &Prog, c: &Compiled, owners: &[IOStatus], outs:
         cn = nodes_coq(&c.g), ci = cmp_ins.join("; "), co = c.g.get_output_node().unwrap().get_id(), sh = if shared_out { "true" } else { "false" },
         sn = nodes_coq(&p.g), si = src_ins.join("; "), so = p.g.get_output_node().unwrap().get_id()
     )
+}
+
+/// `ring-reading`: the ring reading instantiated at arrays modulo 2^w, run on the exported compiled
+/// graph with the PRF values of a real evaluation, must reproduce every node value of that evaluation
+fn ring_reading_case(p: &Prog, c: &Compiled, owners: &[IOStatus], st: ScalarType, rng: &mut Rng, out: &mut Out, desc: serde_json::Value) {
+    let plain: Vec<Value> = p.input_types.iter().map(|t| gen_value(t, rng)).collect();
+    let cin = present_inputs(&p.input_types, owners, &plain, rng);
+    let mut seed = [0u8; 16];
+    for b in seed.iter_mut() { *b = rng.next() as u8; }
+    let vals = eval_all(&c.g, &cin, seed);
+    if !vals.iter().all(|v| matches!(v, Outcome::Ok(_))) { out.stat("ring-reading:evaluation-failed"); return; }
+    let in_types: Vec<Type> = c.g.get_nodes().iter().filter(|n| matches!(n.get_operation(), Operation::Input(_))).map(|n| n.get_type().unwrap()).collect();
+    let ins: Vec<String> = cin.iter().zip(in_types.iter()).map(|(v, t)| value_coq(v, t)).collect();
+    let observed: Vec<String> = vals.iter().zip(c.g.get_nodes().iter()).map(|(v, n)| if let Outcome::Ok(v) = v { value_coq(v, &n.get_type().unwrap()) } else { unreachable!() }).collect();
+    let n: u64 = p.input_types[0].get_shape().iter().product();
+    let w = scalar_size_in_bits(st);
+    let lhs = format!("reading_mismatch {} {} {} {} [{}] [{}]", w, n, tape_coq(&c.g, &vals), nodes_coq(&c.g), ins.join("; "), observed.join("; "));
+    out.case("ring-reading", lhs, "(-1)".into(), desc, true);
 }
 
 pub fn run(tier: &str, seed: u64, out: &mut Out) {
@@ -190,7 +208,9 @@ pub fn run(tier: &str, seed: u64, out: &mut Out) {
             let ops_desc: Vec<String> = p.g.get_nodes().iter().map(|n| op_name(&n.get_operation())).collect();
             let desc = json!({"ops": ops_desc, "st": scalar(st), "owners": owners.iter().map(status_str).collect::<Vec<_>>(), "outputs": outs.iter().map(status_str).collect::<Vec<_>>(), "inline": mname, "compiled_nodes": c.g.get_nodes().len()});
             let private = owners.iter().any(|o| *o != IOStatus::Public);
+            let desc2 = desc.clone();
             out.vernac_case("T:ring", ring_obligation(i, &p, &c, &owners, &outs), desc, private);
+            ring_reading_case(&p, &c, &owners, st, &mut rng, out, desc2);
         }
     }
     // (1) fragment and wider programs
